@@ -15,9 +15,6 @@ import AbacusVerif.Lemmas.C08
 namespace AbacusVerif.Binning
 open AbacusVerif
 
-/-- the mesh shape of a half-complex mesh of size `n` -/
-def halfShape (n : Nat) : Shape := ⟨n, n, n / 2 + 1⟩
-
 /-! ### the convention -/
 
 /-- `lead x l` is the *least* index whose edge is at or above `x`: bins are `(e_b, e_{b+1}]`. -/
@@ -146,35 +143,6 @@ example : (allThreads (kmuRow 4 [0, 2, 5] [0, 1 / 2, 1] (halfShape 4)) 4 3 (fun 
   decide +kernel
 
 /-! ### counts -/
-
-/-- the sequential contribution list of `bin_kmu` and its counts -/
-theorem kmu_threads_counts (n T : Nat) (hn : 1 ≤ n) (assign : Nat → Nat) (ek em : List Rat)
-    (hek : ek ≠ []) (hem : em.tail ≠ []) (h1 : 1 ≤ em.tail.getLast hem) (hT : ∀ i < n, assign i < T) :
-    ∃ ts, allThreads (kmuRow n ek em (halfShape n)) n T assign = .ok ts ∧
-      (∀ cs ∈ ts, ∀ c ∈ cs, 1 ≤ c.w) ∧
-      ∀ b m, cntT ts b m = fullCount n (clsKmu ek em) b m := by
-  obtain ⟨a, t, rfl⟩ := List.exists_cons_of_ne_nil hek
-  obtain ⟨a', t', rfl⟩ : ∃ a' t', em = a' :: t' := by
-    cases em with
-    | nil => simp at hem
-    | cons a' t' => exact ⟨a', t', rfl⟩
-  have hmu := mu_ok t' hem h1
-  refine ⟨_, allThreads_spec _ (rowSpec n (a :: t) (a' :: t')) n T assign
-    (fun i hi => kmuRow_spec n a t a' t' hmu i hi) hT, ?_, ?_⟩
-  · intro cs hcs c hc
-    obtain ⟨tt, _, rfl⟩ := List.mem_map.mp hcs
-    obtain ⟨l, hl, hcl⟩ := List.mem_flatten.mp hc
-    obtain ⟨i, hi, rfl⟩ := List.mem_map.mp hl
-    have hi' := List.mem_range.mp (List.mem_filter.mp hi).1
-    obtain ⟨_, _, _, _, _, h6⟩ := rowSpec_bounds n a t a' t' hmu i hi' c hcl
-    rw [h6]; exact hw_pos n c.k
-  · intro b m
-    have := accT_threads (fun c => c.w) (rowSpec n (a :: t) (a' :: t')) n T assign hT b m
-    unfold cntT
-    rw [natSum_eq]
-    simp only [cnt_eq_acc]
-    rw [this, acc_flatten, List.map_map]
-    exact seq_counts n hn (a :: t) (a' :: t') b m
 
 /-- **kmu_counts_exact.**  For every `n ≥ 1`, every non-empty `k` edge list, mu edges with at least
 one bin ending at or above 1, every thread count and row→thread assignment: `bin_kmu` returns (with no
@@ -351,34 +319,56 @@ example : ∃ ts, allThreads (kmuRow 4 [0, 2, 5] [0, 1 / 2, 1] (halfShape 4)) 4 
   · rw [(h 1 0).1]; decide +kernel
   · rw [(h 1 0).2.1]; decide +kernel
 
+/-- **kppi_means.**  Same for `bin_kppi`: for a conjugation-symmetric `Ff`, `counts[b][p]` is the full-mesh
+count and the reported `weighted_counts[b][p]` is the mean of `Ff` over exactly the full-mesh modes
+classified to `(b, p)`. -/
+theorem kppi_means (n T : Nat) (hn : 1 ≤ n) (assign : Nat → Nat) (ek ep : List Rat)
+    (hek : ek ≠ []) (hep : ep.tail ≠ []) (hT : ∀ i < n, assign i < T)
+    (Ff : Nat → Nat → Nat → Rat) (hsym : ConjSymm n Ff) :
+    ∃ ts, allThreads (kppiRow n ek ep (halfShape n)) n T assign = .ok ts ∧ ∀ b m,
+      cntT ts b m = fullCount n (clsKppi ek ep) b m ∧
+      divIf (wsumT Ff ts b m) (cntT ts b m) =
+        divIf (fullSumRat n (fun i j l =>
+          if clsKppi ek ep (fold n i) (fold n j) (fold n l) = some (b, m) then Ff i j l else 0))
+          (fullCount n (clsKppi ek ep) b m) := by
+  obtain ⟨a, t, rfl⟩ := List.exists_cons_of_ne_nil hek
+  obtain ⟨a', t', rfl⟩ : ∃ a' t', ep = a' :: t' := by
+    cases ep with
+    | nil => simp at hep
+    | cons a' t' => exact ⟨a', t', rfl⟩
+  have hts : allThreads (kppiRow n (a :: t) (a' :: t') (halfShape n)) n T assign = _ :=
+    allThreads_spec _ (rowSpecPi n (a :: t) (a' :: t')) n T assign
+      (fun i hi => kppiRow_spec n a t a' t' hep i hi) hT
+  refine ⟨_, hts, ?_⟩
+  intro b m
+  have hc : cntT ((List.range T).map (fun tt => (((List.range n).filter (fun i => assign i == tt)).map
+      (rowSpecPi n (a :: t) (a' :: t'))).flatten)) b m = fullCount n (clsKppi (a :: t) (a' :: t')) b m := by
+    have := accT_threads (fun c => c.w) (rowSpecPi n (a :: t) (a' :: t')) n T assign hT b m
+    unfold cntT
+    rw [natSum_eq]
+    simp only [cnt_eq_acc]
+    rw [this, acc_flatten, List.map_map]
+    exact seq_counts_pi n hn (a :: t) (a' :: t') b m
+  have hw : wsumT Ff ((List.range T).map (fun tt => (((List.range n).filter (fun i => assign i == tt)).map
+        (rowSpecPi n (a :: t) (a' :: t'))).flatten)) b m = fullSumRat n (fun i j l =>
+        if clsKppi (a :: t) (a' :: t') (fold n i) (fold n j) (fold n l) = some (b, m) then Ff i j l else 0) := by
+    have := accT_threads (fun c => (c.w : Rat) * Ff c.i c.j c.k) (rowSpecPi n (a :: t) (a' :: t')) n T assign hT b m
+    unfold wsumT
+    rw [ratSum_eq]
+    simp only [wsum_eq_acc]
+    rw [this, acc_flatten, List.map_map]
+    exact seq_wsum_pi n hn (a :: t) (a' :: t') Ff hsym b m
+  exact ⟨hc, by rw [hc, hw]⟩
+
+example : ∃ ts, allThreads (kppiRow 4 [0, 1, 3] [0, 1, 5] (halfShape 4)) 4 2 (fun i => i % 2) = .ok ts ∧
+    cntT ts 1 1 = 4 ∧ divIf (wsumT (fun i j l => (qOf 4 i j l : Rat)) ts 1 1) (cntT ts 1 1) = 6 := by
+  obtain ⟨ts, hts, h⟩ := kppi_means 4 2 (by omega) (fun i => i % 2) [0, 1, 3] [0, 1, 5] (by simp) (by simp)
+    (fun i _ => Nat.mod_lt i (by omega)) _ (conjSymm_qOf 4)
+  refine ⟨ts, hts, ?_, ?_⟩
+  · rw [(h 1 1).1]; decide +kernel
+  · rw [(h 1 1).2]; decide +kernel
+
 /-! ### multipoles -/
-
-theorem cntT_zero (ts : List (List Contrib)) (b m : Nat) (h : cntT ts b m = 0) : ∀ cs ∈ ts, cnt cs b m = 0 := by
-  intro cs hcs
-  have := mem_le_sum (ts.map (fun cs => cnt cs b m)) (cnt cs b m) (List.mem_map.mpr ⟨cs, hcs, rfl⟩)
-  unfold cntT at h
-  rw [natSum_eq] at h
-  omega
-
-theorem wsumT_zero (F : Nat → Nat → Nat → Rat) (ts : List (List Contrib))
-    (hw1 : ∀ cs ∈ ts, ∀ c ∈ cs, 1 ≤ c.w) (b m : Nat) (h : cntT ts b m = 0) : wsumT F ts b m = 0 := by
-  unfold wsumT
-  rw [ratSum_eq]
-  apply List.sum_eq_zero
-  intro x hx
-  obtain ⟨cs, hcs, rfl⟩ := List.mem_map.mp hx
-  exact wsum_zero_of_cnt_zero F cs (hw1 cs hcs) b m (cntT_zero ts b m h cs hcs)
-
-/-- `Σ F` of a bin is its mode count times its reported mean -/
-theorem wsumT_eq_count_mul_mean (F : Nat → Nat → Nat → Rat) (ts : List (List Contrib))
-    (hw1 : ∀ cs ∈ ts, ∀ c ∈ cs, 1 ≤ c.w) (b m : Nat) :
-    wsumT F ts b m = (cntT ts b m : Rat) * divIf (wsumT F ts b m) (cntT ts b m) := by
-  unfold divIf
-  by_cases h : cntT ts b m = 0
-  · rw [if_pos h, wsumT_zero F ts hw1 b m h]; simp
-  · rw [if_neg h]
-    have : (cntT ts b m : Rat) ≠ 0 := by exact_mod_cast h
-    field_simp
 
 /-- **monopole_is_mu_average.**  The `l = 0` row of `weighted_counts_poles` that `bin_kmu` reports
 (`poleRow … 0`) is, for every `k` bin, the mode-count-weighted average over the mu bins of the reported
@@ -437,34 +427,95 @@ theorem Pn_zero (x : Rat) : Pn x 0 = .ok 1 := by
 
 example : peval (legendre 4) (1 / 2) = (35 * (1 / 4 : Rat) ^ 2 - 30 * (1 / 4) + 3) / 8 := by decide +kernel
 
-/-- **kmu_pole_sums_partial.**  For an order whose coded `P_n` is the polynomial `P` (orders 0, 2, 4:
-`Pn_zero`, `Pn_two`, `Pn_four`; in general `legendre_table`), the accumulated multipole sum of `k` bin
-`b` is `Σ w · F · (2l+1) · P(mu²)` over exactly the accumulated cells of that `k` bin (which, by
-`kmu_counts_exact` / `kmu_means`, are the half-mesh representatives, with their Hermitian weights, of
-the full-mesh modes classified to `b`).
-
-Full statement NOT proved here (what is missing is only the re-indexing of this sum to the full mesh,
-i.e. `seq_wsum` for a sum restricted by the `k` bin alone instead of by `(k, mu)` bin; the quantity
-`(2l+1) P_l(mu²(i,j,l)) · Ff i j l` is conjugation symmetric whenever `Ff` is):
-  for conjugation-symmetric `Ff`, `binned_poles[ip][b] · counts_poles[b]
-     = Σ over full-mesh modes (i,j,l) with k-bin b of (2l+1) · P_l(mu²) · Ff i j l`. -/
-theorem kmu_pole_sums_partial (F : Nat → Nat → Nat → Rat) (pole b : Nat) (P : Rat → Rat)
-    (hP : ∀ x, Pn x pole = .ok (P x)) (cs : List Contrib) :
-    poleSum F pole b cs = .ok (((cs.filter (fun c => c.b == b)).map (fun c =>
-      (c.w : Rat) * (F c.i c.j c.k * (((2 * pole + 1 : Nat) : Rat) * P (mu2 (c.q - c.k * c.k) c.k))))).sum) := by
-  induction cs with
-  | nil => rfl
-  | cons c cs ih =>
-    unfold poleSum
-    by_cases hb : (c.b == b) = true
-    · rw [if_pos hb, hP, ih]
-      simp [hb]
-    · rw [if_neg hb, ih]
-      simp [hb]
-
 example (F : Nat → Nat → Nat → Rat) (cs : List Contrib) :
     poleSum F 2 0 cs = .ok (((cs.filter (fun c => c.b == 0)).map (fun c =>
       (c.w : Rat) * (F c.i c.j c.k * (((2 * 2 + 1 : Nat) : Rat) * ((3 * mu2 (c.q - c.k * c.k) c.k - 1) / 2))))).sum) :=
-  kmu_pole_sums_partial F 2 0 (fun x => (3 * x - 1) / 2) Pn_two cs
+  poleSum_spec F 2 0 (fun x => (3 * x - 1) / 2) Pn_two cs
+
+/-- the Legendre-weighted per-mode quantity `(2l+1) · P(mu²) · Ff` on mesh indices -/
+def poleWeighted (n pole : Nat) (P : Rat → Rat) (Ff : Nat → Nat → Nat → Rat) (i j l : Nat) : Rat :=
+  ((2 * pole + 1 : Nat) : Rat) * P (mu2 (sq (fold n i) + sq (fold n j)) (fold n l).natAbs) * Ff i j l
+
+theorem conjSymm_poleWeighted (n pole : Nat) (P : Rat → Rat) (Ff : Nat → Nat → Nat → Rat)
+    (hsym : ConjSymm n Ff) : ConjSymm n (poleWeighted n pole P Ff) := by
+  intro i j l hi hj hl
+  simp only [poleWeighted, sq, natAbs_fold_negIdx n i hi, natAbs_fold_negIdx n j hj,
+    natAbs_fold_negIdx n l hl, hsym i j l hi hj hl]
+
+/-- **kmu_pole_means.**  For a conjugation-symmetric `Ff` and an order whose coded `P_n` is the
+polynomial `P` (orders 0, 2, 4: `Pn_zero`, `Pn_two`, `Pn_four`; `legendre_table` for the coefficients
+up to 10), the accumulated `weighted_counts_poles[ip][b]` of a non-zero order is the sum of
+`(2l+1) · P_l(mu) · Ff` over exactly the full-mesh modes whose `|k|²` classifies to `b` (all mu bins);
+divided by `counts_poles[b]` (`kmu_counts_exact`) it is their mean. -/
+theorem kmu_pole_means (n T : Nat) (hn : 1 ≤ n) (assign : Nat → Nat) (ek em : List Rat)
+    (hek : ek ≠ []) (hem : em.tail ≠ []) (h1 : 1 ≤ em.tail.getLast hem) (hT : ∀ i < n, assign i < T)
+    (Ff : Nat → Nat → Nat → Rat) (hsym : ConjSymm n Ff) (pole : Nat) (P : Rat → Rat)
+    (hP : ∀ x, Pn x pole = .ok (P x)) :
+    ∃ ts, allThreads (kmuRow n ek em (halfShape n)) n T assign = .ok ts ∧ ∀ b,
+      poleSumT Ff pole b ts = .ok (ratSum ((List.range (em.length - 1)).map (fun m =>
+        fullSumRat n (fun i j l =>
+          if clsKmu ek em (fold n i) (fold n j) (fold n l) = some (b, m) then poleWeighted n pole P Ff i j l
+          else 0)))) := by
+  obtain ⟨a, t, rfl⟩ := List.exists_cons_of_ne_nil hek
+  obtain ⟨a', t', rfl⟩ : ∃ a' t', em = a' :: t' := by
+    cases em with
+    | nil => simp at hem
+    | cons a' t' => exact ⟨a', t', rfl⟩
+  have hmu := mu_ok t' hem h1
+  have hts : allThreads (kmuRow n (a :: t) (a' :: t') (halfShape n)) n T assign = _ :=
+    allThreads_spec _ (rowSpec n (a :: t) (a' :: t')) n T assign
+      (fun i hi => kmuRow_spec n a t a' t' hmu i hi) hT
+  refine ⟨_, hts, ?_⟩
+  intro b
+  -- the per-cell quantity the code accumulates
+  set h : Contrib → Rat := fun c =>
+    (c.w : Rat) * (Ff c.i c.j c.k * (((2 * pole + 1 : Nat) : Rat) * P (mu2 (c.q - c.k * c.k) c.k))) with hh
+  set thr : Nat → List Contrib := fun tt =>
+    (((List.range n).filter (fun i => assign i == tt)).map (rowSpec n (a :: t) (a' :: t'))).flatten with hthr
+  unfold poleSumT
+  rw [mapM_ok _ (fun cs => accb h cs b) _ (fun cs _ => poleSum_spec Ff pole b P hP cs)]
+  simp only [Except.map]
+  congr 1
+  rw [ratSum_eq, ratSum_eq, List.map_map, list_sum_range, list_sum_range]
+  -- every accumulated cell has its mu bin inside the table
+  have hm : ∀ tt, ∀ c ∈ thr tt, c.m < (a' :: t').length - 1 := by
+    intro tt c hc
+    obtain ⟨l, hl, hcl⟩ := List.mem_flatten.mp hc
+    obtain ⟨i, hi, rfl⟩ := List.mem_map.mp hl
+    have hi' := List.mem_range.mp (List.mem_filter.mp hi).1
+    have := (rowSpec_bounds n a t a' t' hmu i hi' c hcl).2.1
+    omega
+  simp only [Function.comp_def]
+  rw [Finset.sum_congr rfl (fun tt _ => accb_eq_sum_acc h (thr tt) b _ (hm tt)), Finset.sum_comm]
+  apply Finset.sum_congr rfl
+  intro m _
+  -- threads → sequential → full mesh
+  have h1 := accT_threads h (rowSpec n (a :: t) (a' :: t')) n T assign hT b m
+  rw [List.map_map, list_sum_range] at h1
+  simp only [Function.comp_def] at h1
+  rw [h1, acc_flatten, List.map_map]
+  have h2 := seq_wsum n hn (a :: t) (a' :: t') (poleWeighted n pole P Ff)
+    (conjSymm_poleWeighted n pole P Ff hsym) b m
+  rw [← h2]
+  congr 1
+  apply List.map_congr_left
+  intro i _
+  simp only [Function.comp_def, wsum_eq_acc]
+  apply acc_rowSpec_congr
+  intro j k b' m' hk
+  simp only [hh, poleWeighted, natAbs_fold_half n k hk hn, Nat.add_sub_cancel]
+  ring
+
+example : ∃ ts, allThreads (kmuRow 4 [0, 2, 5] [0, 1 / 2, 1] (halfShape 4)) 4 2 (fun i => i % 2) = .ok ts ∧
+    poleSumT (fun _ _ l => ((sq (fold 4 l) : Nat) : Rat)) 2 1 ts = .ok 20 := by
+  have hs : ConjSymm 4 (fun _ _ l => ((sq (fold 4 l) : Nat) : Rat)) := by
+    intro i j l _ _ hl
+    simp only [sq, natAbs_fold_negIdx 4 l hl]
+  obtain ⟨ts, hts, h⟩ := kmu_pole_means 4 2 (by omega) (fun i => i % 2) [0, 2, 5] [0, 1 / 2, 1] (by simp) (by simp)
+    (by decide +kernel) (fun i _ => Nat.mod_lt i (by omega)) _ hs 2 _ Pn_two
+  refine ⟨ts, hts, ?_⟩
+  rw [h 1]
+  congr 1
+  decide +kernel
 
 end AbacusVerif.Binning
